@@ -33,8 +33,15 @@ Theorem C17_lower_by_name_unambiguous : forall p t,
   analyze_ok p = true -> t ∈ sp_txs p -> lower p (st_name t) = lower_tx p t.
 Proof. exact lower_by_name_unambiguous. Qed.
 
+(** no top-level definition hides another: environment values, parties, policies, assets and
+    types of an accepted program have pairwise different names (finding F17-4, repaired) *)
+Theorem C17_top_level_names_unique : forall p, analyze_ok p = true ->
+  NoDup (map fst (sp_env p) ++ sp_parties p ++ map fst (sp_policies p) ++ map (fun a => fst (fst a)) (sp_assets p) ++ map td_name (sp_types p)).
+Proof. exact top_level_names_unique. Qed.
+
 Print Assumptions C17_required_keys_are_declared.
 Print Assumptions C17_argument_keys_do_not_collide.
 Print Assumptions C17_lowercase_idempotent.
 Print Assumptions C17_reported_params_sorted.
 Print Assumptions C17_lower_by_name_unambiguous.
+Print Assumptions C17_top_level_names_unique.
